@@ -103,6 +103,7 @@ inductive FPhase
 structure Fut where
   phase : FPhase := .absent
   busy : Bool := false            -- a thread is inside poll/drop of this future (`&mut` exclusivity)
+  bo : Bool := false              -- ghost: driven by the harness `block_on` (waker = unpark) rather than polled manually
   deriving DecidableEq, Repr
 
 structure State where
@@ -143,11 +144,11 @@ def pollDone (s : State) (t : Tid) (ready : Bool) : State :=
   let f := curF th
   if th.blockOn then
     if ready then
-      { s with fut := upd s.fut f { phase := .absent, busy := false }
+      { s with fut := upd s.fut f { s.fut f with phase := .absent, busy := false }
                th := upd s.th t { th with pc := .ret .ok } }
     else withPc s t .boPark
   else if ready then
-    { s with fut := upd s.fut f { phase := .done, busy := false }
+    { s with fut := upd s.fut f { s.fut f with phase := .done, busy := false }
              th := upd s.th t { th with pc := .ret .ready } }
   else
     { s with fut := upd s.fut f { s.fut f with busy := false }
@@ -244,12 +245,12 @@ def callStep (cfg : Cfg) (s : State) (t : Tid) (op : MOp) : State :=
     else withPc s t (.ret .invalid)
   | .lockAsync f =>
     if (s.fut f).phase = .absent ∧ (s.fut f).busy = false then
-      { s with fut := upd s.fut f { phase := .fresh, busy := true }
+      { s with fut := upd s.fut f { phase := .fresh, busy := true, bo := true }
                th := upd s.th t { th with pc := .taLoad .asyncFirst, cur := some f, blockOn := true } }
     else withPc s t (.ret .invalid)
   | .newFut f =>
     if (s.fut f).phase = .absent ∧ (s.fut f).busy = false then
-      withPc { s with fut := upd s.fut f { phase := .fresh, busy := false } } t (.ret .ok)
+      withPc { s with fut := upd s.fut f { phase := .fresh, busy := false, bo := false } } t (.ret .ok)
     else withPc s t (.ret .invalid)
   | .poll f =>
     if (s.fut f).busy then withPc s t (.ret .invalid)
@@ -271,7 +272,7 @@ def callStep (cfg : Cfg) (s : State) (t : Tid) (op : MOp) : State :=
       | .startedNode =>
         { s with fut := upd s.fut f { s.fut f with busy := true }
                  th := upd s.th t { th with pc := .llSwap .drop, cur := some f, blockOn := false } }
-      | _ => withPc { s with fut := upd s.fut f { phase := .absent, busy := false } } t (.ret .ok)
+      | _ => withPc { s with fut := upd s.fut f { s.fut f with phase := .absent, busy := false } } t (.ret .ok)
   | .wakes f => withPc s t (.ret (.n (s.wakes f)))
 
 /-! ### one function per pc -/
@@ -391,7 +392,7 @@ def nDLoad (s : State) (t : Tid) : Tr :=
   let th := s.th t
   let f := curF th
   let n : Nid := .fut f
-  let s1 : State := { s with fut := upd s.fut f { phase := .absent, busy := false } }
+  let s1 : State := { s with fut := upd s.fut f { s.fut f with phase := .absent, busy := false } }
   [(.load (.nodeState n) .acquire (b2n (s.wl.node n).woken),
     if (s.wl.node n).woken then withPc s1 t (.llSwap .wakeNext) else withPc s1 t (.ret .ok))]
 
